@@ -95,8 +95,9 @@ def run(ctx, rep, r1="R10.1", r2="R10.2", only_transform=False):
     for node in ast.walk(f.node):
         if isinstance(node, ast.Assign) and any(isinstance(t, ast.Attribute) and t.attr == "_linear" for t in node.targets) and isinstance(node.value, ast.Call):
             v = node.value
-            if v.args and isinstance(v.args[0], (ast.List, ast.Tuple)):
-                builds.append((node, v.args[0].elts))
+            lst = v.args[0] if v.args else next((k.value for k in v.keywords if k.arg == "constraints"), None)
+            if isinstance(lst, (ast.List, ast.Tuple)):
+                builds.append((node, lst.elts))
     if len(builds) != 2:
         raise AnalysisError(f"Problem.__init__: {len(builds)} constructions of the internal linear system found (expected reduced + scaled)")
     builds.sort(key=lambda b: b[0].lineno)
